@@ -195,6 +195,13 @@ class SyncedDict(SyncedCollection, MutableMapping):
 
         """
         if _mapping_resolver.get_type(data) == "MAPPING":
+            if self._root is not None:
+                # A nested collection must be reset within the backend's
+                # current content, not within a possibly stale copy of it.
+                self._validate(data)
+                with self._load_and_save:
+                    self._update(data, _validate=True)
+                return
             self._update(data)
             with self._thread_lock:
                 self._save()
@@ -232,6 +239,12 @@ class SyncedDict(SyncedCollection, MutableMapping):
         return ret
 
     def clear(self):  # noqa: D102
+        if self._root is not None:
+            # A nested collection must be cleared within the backend's
+            # current content, not within a possibly stale copy of it.
+            with self._load_and_save:
+                self._data = {}
+            return
         self._data = {}
         with self._thread_lock:
             self._save()
